@@ -95,7 +95,7 @@ func agree(x *mon.Ctx) {
 	// ---- grid of structured scalars: (dA, rA) over S x S', the other party rotates through S
 	sub := len(S)
 	if !x.Thorough() {
-		sub = 18
+		sub = 12
 	}
 	for i, d := range S {
 		for j := 0; j < sub; j++ {
@@ -161,7 +161,7 @@ func agree(x *mon.Ctx) {
 	}
 	for ti, tg := range targets {
 		for side := 0; side < 3; side++ { // 0: initiator, 1: responder, 2: both
-			for rep := 0; rep < x.Scale(6, 40); rep++ {
+			for rep := 0; rep < x.Scale(4, 40); rep++ {
 				k := next()
 				c := x.Begin("tsum target=%s side=%d rep=%d flags#%d (scalars drawn from the case PRNG, see details on failure)", tg.name, side, rep, k)
 				if c == nil {
@@ -294,7 +294,7 @@ func agree(x *mon.Ctx) {
 	}
 
 	// ---- random sessions
-	for i := 0; i < x.Scale(2500, 60000); i++ {
+	for i := 0; i < x.Scale(1200, 60000); i++ {
 		k := next()
 		c := x.Begin("random #%d flags#%d", i, k)
 		if c == nil {
